@@ -20,40 +20,34 @@ import traceback
 HERE = os.path.dirname(os.path.dirname(os.path.abspath(__file__)))
 
 
-def _verify_task(args):
+def _gen_fn(args):
     qualname, opts = args
-    import specs  # noqa: F401  (registers the contracts)
-    from pyvc.verify import verify_function
+    from pyvc.run import _gen
 
-    try:
-        return ("fn", qualname, verify_function(qualname, opts).to_dict())
-    except Exception as e:  # pragma: no cover
-        return ("fn", qualname, {"function": qualname, "status": "ERROR", "reason": f"{e}\n{traceback.format_exc(limit=5)}", "obligations": [], "seconds": 0, "paths": 0, "source_sha": ""})
+    return ("fn", qualname, _gen((qualname, opts)))
 
 
-def _lemma_task(args):
+def _gen_lemma(args):
     name, opts = args
     import specs  # noqa: F401
     from specs import lemmas
     from pyvc import smt
 
-    out = {"lemma": name, "obligations": [], "status": "PROVED", "seconds": 0.0}
+    out = {"lemma": name, "obligations": [], "status": "PENDING", "seconds": 0.0, "reason": ""}
     t0 = time.time()
     try:
         smt.reset_extra()
         for oname, pc, goal in getattr(lemmas, name)():
-            v = smt.prove(pc, goal, opts.get("timeout_ms", 10000), True, opts.get("cvc5_timeout_ms", 20000), want_model=True)
-            st = {"unsat": "discharged", "sat": "refuted", "unknown": "undecided"}[v.status]
-            d = {"name": f"lemma.{name}::{oname}", "kind": "lemma", "status": st, "backend": v.backend, "seconds": round(v.seconds, 4)}
-            if v.status == "sat":
-                d["model"] = str(v.model)[:2000]
-                out["status"] = "REFUTED"
-            elif v.status == "unknown":
-                d["reason"] = v.reason
-                if out["status"] == "PROVED":
-                    out["status"] = "UNDECIDED"
-            out["obligations"].append(d)
-        if not out["obligations"]:
+            # vacuity guard: the assumptions of a lemma must not be contradictory
+            vac = smt.satisfiable(pc, 3000)
+            if vac.status == "unsat":
+                out["status"] = "ERROR"
+                out["reason"] = f"assumptions of {oname} are unsatisfiable (vacuous lemma)"
+                break
+            out["obligations"].append(
+                {"name": f"lemma.{name}::{oname}", "kind": "lemma", "status": "pending", "smt2": smt.export_query(pc, goal), "relaxed": None, "noseq": smt.export_noseq(pc, goal)}
+            )
+        if not out["obligations"] and out["status"] != "ERROR":
             out["status"] = "ERROR"
             out["reason"] = "lemma generated no obligations"
     except Exception as e:
@@ -81,9 +75,13 @@ def _bounded_task(args):
 def _run(task):
     kind = task[0]
     if kind == "fn":
-        return _verify_task(task[1:])
+        return _gen_fn(task[1:])
     if kind == "lemma":
-        return _lemma_task(task[1:])
+        return _gen_lemma(task[1:])
+    if kind == "solve":
+        from pyvc.run import _solve
+
+        return ("solve",) + _solve(task[1])
     return _bounded_task(task[1:])
 
 
@@ -131,7 +129,9 @@ def main(argv=None):
     import specs  # noqa: F401
     from pyvc.spec import REGISTRY
 
-    opts = {"timeout_ms": 10000 if tier == "quick" else 60000, "cvc5_timeout_ms": 20000 if tier == "quick" else 60000}
+    # budgets are two orders of magnitude above what the obligations of the unchanged tree need, so
+    # that verdicts do not flip when all cores are busy; they only cost time on code that fails
+    opts = {"timeout_ms": 20000 if tier == "quick" else 90000, "cvc5_timeout_ms": 8000 if tier == "quick" else 60000}
     fns = [q for q, c in REGISTRY.items() if pid in c.properties and c.status == "PROVE"]
     fns += [q for q in cfg.get("functions", []) if q not in fns]
     if a.only:
@@ -146,10 +146,28 @@ def main(argv=None):
     # heavy tasks first
     results = []
     if tasks:
+        from pyvc.verify import settle
+
         ctx = mp.get_context("fork")
-        with ctx.Pool(min(a.jobs, max(1, len(tasks)))) as pool:
+        with ctx.Pool(a.jobs) as pool:
+            # phase 1: generate obligations (functions, lemmas) and run the bounded checks, all in parallel
+            pending = []
+            solve_async = []
             for r in pool.imap_unordered(_run, tasks, chunksize=1):
                 results.append(r)
+                if r[0] in ("fn", "lemma"):
+                    rep = r[2]
+                    for oi, ob in enumerate(rep["obligations"]):
+                        if ob.get("status") == "pending":
+                            t = ((len(results) - 1, oi), ob.pop("smt2"), ob.pop("relaxed", None), opts["timeout_ms"], opts["cvc5_timeout_ms"], ob.pop("noseq", None))
+                            solve_async.append(pool.apply_async(_run, (("solve", t),)))
+            # phase 2: collect the solver verdicts
+            for ar in solve_async:
+                _, (ri, oi), verdict = ar.get()
+                results[ri][2]["obligations"][oi].update(verdict)
+        for r in results:
+            if r[0] in ("fn", "lemma"):
+                settle(r[2])
     fn_reports = sorted([r[2] for r in results if r[0] == "fn"], key=lambda d: d["function"])
     lemma_reports = sorted([r[2] for r in results if r[0] == "lemma"], key=lambda d: d["lemma"])
     bounded_reports = sorted([r[2] for r in results if r[0] == "bounded"], key=lambda d: d["module"])
